@@ -81,8 +81,9 @@ class _OpxRange(ExcelWrapper.RangeData):
 
             # if this range corresponds to the top left of a CSE Array formula
             if (args[0] == args[1] == '1') and all(
-                    c.value and c.value.startswith(front)
-                    for c in flatten(cells)):
+                    c.value == f'{front},{i},{j},{args[2]},{args[3]})'
+                    for i, row in enumerate(cells, start=1)
+                    for j, c in enumerate(row, start=1)):
                 # apply formula to the range
                 formula = '={%s}' % front[len(ARRAY_FORMULA_NAME) + 1:]
         else:
